@@ -2,7 +2,7 @@
 import struct
 
 
-def build_pbd(bodies, parent, bones, link_perm=None):
+def build_pbd(bodies, parent, bones, link_perm=None, block_align=4, lead=b""):
     """bodies: [body ids]; parent: {id: parent id or -1}; bones: {id: [(name bytes, [12 f32 bits])]}
     link_perm: permutation so that item i uses link index link_perm[i]"""
     n = len(bodies)
@@ -18,7 +18,7 @@ def build_pbd(bodies, parent, bones, link_perm=None):
         links[perm[idx[b]]] = (perm[idx[p]] if p != -1 else -1, perm[idx[children[b][0]]] if children[b] else -1,
                                perm[idx[sibs[k + 1]]] if k + 1 < len(sibs) else -1, idx[b])
     hdr_len = 4 + n * 12 + n * 8
-    blocks = b""
+    blocks = lead      # bytes between the tables and the first block (blocks are found through their offsets only)
     offs = []
     for b in bodies:
         off = hdr_len + len(blocks)
@@ -34,7 +34,7 @@ def build_pbd(bodies, parent, bones, link_perm=None):
         for _, m in bl:
             blk += b"".join(struct.pack("<I", x) for x in m)
         blk += heap
-        while len(blk) % 4:
+        while len(blk) % block_align:
             blk += b"\0"
         blocks += blk
     out = struct.pack("<i", n)
